@@ -191,15 +191,18 @@ fn check_fir(f: &Fir, fci: &[u8], st: &mut Stats) -> Verdict {
 fn check_sli(s: &Sli, fci: &[u8], st: &mut Stats) -> Verdict {
     let want = ref_sli_decode(fci);
     let dbg: Vec<String> = no_panic("Sli::lost_macroblocks", || s.lost_macroblocks().take(want.len() + 4).map(|e| format!("{e:?}")).collect())?;
-    let got: Vec<Option<(u16, u16, u8)>> = dbg.iter().map(|d| parse_sli_debug(d)).collect();
+    // entries are read through the calibrated Debug view (drive::sli_view); with an opaque Debug they are
+    // compared with the entry the crate decodes from the reference word of the expected values
+    let got: Vec<serde_json::Value> = dbg.iter().map(|d| sli_observed(d)).collect();
     if !want.is_empty() {
         st.nontrivial();
     }
-    let want_o: Vec<Option<(u16, u16, u8)>> = want.iter().map(|x| Some(*x)).collect();
+    st.label_if(matches!(sli_view(), SliView::Opaque), "SLI entries compared through an opaque Debug text");
+    let want_o: Vec<serde_json::Value> = want.iter().map(|(a, n, p)| sli_expected(*a, *n, *p)).collect();
     ensure!(got == want_o, "C15:Sli:entries", "lost_macroblocks() = {dbg:?}, RFC 4585 decoding of {} = {want:?}", hex(fci));
     let salt = fci.iter().fold(13u64, |h, x| h.wrapping_mul(0x100_0000_01b3).wrapping_add(*x as u64));
     no_panic("Sli::lost_macroblocks iterator protocol", || {
-        super::common::iter_protocol("Sli::lost_macroblocks", "C15", || s.lost_macroblocks(), |e| parse_sli_debug(&format!("{e:?}")), &want_o, salt, false)
+        super::common::iter_protocol("Sli::lost_macroblocks", "C15", || s.lost_macroblocks(), |e| sli_observed(&format!("{e:?}")), &want_o, salt, false)
     })??;
     Ok(())
 }
